@@ -20,7 +20,7 @@ import (
 )
 
 func dopts(tr string) map[string]interface{} {
-	if hx.NeedsTLS(tr) {
+	if hx.NeedsTLS(innerOf(tr)) {
 		_, cc := hx.TLSConfigs()
 		return map[string]interface{}{mangos.OptionTLSConfig: cc}
 	}
@@ -271,6 +271,7 @@ func runAcceptFlood(c *mon.Case, sp spec) {
 func runWriterStalled(c *mon.Case, sp spec) {
 	tr := sp.Tran
 	ctx := "writerstalled/" + tr
+	base0 := mon.TakeBaseline() // (what an earlier case left running is that case's finding)
 	oldGC := debug.SetGCPercent(-1)
 	defer debug.SetGCPercent(oldGC)
 	s := hx.MustSock(c, "push")
@@ -339,7 +340,7 @@ func runWriterStalled(c *mon.Case, sp spec) {
 		c.Inconclusive("setup %s: the writer did not stall (err %v, consecutive timeouts %d)", ctx, e, timeouts)
 		return
 	}
-	base := mon.GoroutineBaseline{} // everything the library still runs after Close belongs to this socket
+	base := base0 // everything the library has started since the case began belongs to this socket
 	fds := mon.SocketFDs()
 	_ = fds
 	ck := mon.Go("Close", func() (interface{}, error) { return nil, s.Close() })
